@@ -180,3 +180,18 @@ PROPS["C09"] = dict(
     trusted=["goja (argument conversion by reflection, iteration protocol, exception propagation)", "the watchdog / recover() plumbing of the harness"],
     assumptions=["time bounded by the size of the arguments: allocation sizes above 64 MiB are not exercised"],
 )
+
+_REQ_CODES = {"Diff1": "model event log (outcomes, identities, exports seen) differs", "Diff2": "model selects another file / native implementation",
+              "Diff3": "evaluation counters differ", "Diff4": "SourceLoader call log differs", "Diff5": "native loader invocation count differs",
+              "SpecFail1": "the file obtained is not the one the Node.js algorithm selects (or wrong failure kind)",
+              "SpecFail2": "a bare / node: name yielded an implementation other than the registrations prescribe",
+              "SpecFail3": "the same native name yielded two different objects", "SpecFail4": "a native loader ran more than once in one runtime",
+              "SpecFail5": "two requires of one file without re-evaluation returned different exports, or a re-evaluation without a failure in between",
+              "Implthrown-value-not-identical": "the value caught by the requirer is not the thrown value", "Implrequire-crashed": "require crashed"}
+
+PROPS["C01"] = dict(harness="reqmod", module="Cases.ReqCheck", env={"VERIF_PROFILE": "cache"}, shard=60, codes=_REQ_CODES,
+    level_text="placeholder", level_note="placeholder", rule="module graphs with cycles, throws, retries, spellings", trusted=[], assumptions=[])
+PROPS["C02"] = dict(harness="reqmod", module="Cases.ReqCheck", env={"VERIF_PROFILE": "resolve"}, shard=60, codes=_REQ_CODES,
+    level_text="placeholder", level_note="placeholder", rule="trees with competing candidates", trusted=[], assumptions=[])
+PROPS["C15"] = dict(harness="reqmod", module="Cases.ReqCheck", env={"VERIF_PROFILE": "native"}, shard=60, codes=_REQ_CODES,
+    level_text="placeholder", level_note="placeholder", rule="registration sets x call orders", trusted=[], assumptions=[])
